@@ -10,6 +10,7 @@ import Driver.C03
 import Driver.C12
 import Driver.C09
 import Driver.C04
+import Driver.C05
 open Driver
 
 /-- dispatch one request line; returns the output lines -/
@@ -32,6 +33,7 @@ def dispatch (line : String) : IO (List String) := do
   | "c12" :: args => cmdC12 args
   | "c09" :: args => cmdC09 args
   | "c04" :: args => cmdC04 args
+  | "c05" :: args => cmdC05 args
   | _ => return ["error unknown-command"]
 
 partial def loop (hin : IO.FS.Stream) (hout : IO.FS.Stream) : IO Unit := do
